@@ -89,6 +89,7 @@ def parseOp (w : List String) : Option Op :=
     | some n, some v => some (Op.setcell n v)
     | _, _ => none
   | ["save"] => some Op.save
+  | ["reopen"] => some Op.reopen
   | _ => none
 
 def resultTag (s : St) (op : Op) : String :=
